@@ -45,7 +45,7 @@ def seeded_table():
         except Exception: continue
         cr = m.get("check_result", {})
         f = lambda s, n: re.sub(r"\s+", " ", str(s)).replace("|", "/")[:n]
-        rows.append("| %s | %s | %s | **%s** - %s |" % (os.path.basename(d), f(m.get("summary", ""), 220), f(m.get("needs_to_manifest", ""), 160), cr.get("detected", "?"), f(cr.get("detail", ""), 200)))
+        rows.append("| %s | %s | %s | **%s** - %s |" % (os.path.basename(d), f(m.get("summary", ""), 220), f(m.get("needs_to_manifest", ""), 160), cr.get("detected", "?"), f((("missed at first; " + cr["strengthened"] + " -- ") if cr.get("strengthened") else "") + cr.get("detail", ""), 320)))
     return "\n".join(rows)
 
 def repo_commits():
